@@ -218,13 +218,13 @@ def gen_govc(prop):
 
 PROPS["C05"] = {
     "level": "other",
-    "govc": gen_govc("C05")[:1],
+    "govc": gen_govc("C05")[:1] + [{"dir": "{repo}", "pkgs": ["./internal/ast"], "contracts": ["{repo}/internal/ast/zz_contracts_verif.go"], "prop": "C05"}],
     "trusted_base": COMMON_TRUSTED + ["closed world of implementers of action.Action (Accept, Error, Reduce, Shift): dynamic calls are resolved by case analysis over their contracts"],
     "assumptions": [
         "String() methods of the action types are trusted to be free of side effects",
         "that the rendered table entry is the action computed by ItemSet.Action, and the consequence for the generated parser's verdict and reductions, are checked by the bounded SYN sweep of the LR validator (-a case) together with the run-time contracts of C02",
     ],
-    "explanation": "Proved for all item sets and all item orders: Shift/Reduce/Error/Accept.ResolveConflict implement 'shift beats reduce, the lower production index beats the higher, no-action is neutral, accept conflicts are refused'; ItemSet.Action returns ERROR when no item proposes an action, a proposed action otherwise, a shift whenever a shift is proposed, else the reduce with the smallest production index (invariants are stated over the set of proposals of the item prefix, not over the fold order).",
+    "explanation": "Proved for all item sets and all item orders: Shift/Reduce/Error/Accept.ResolveConflict implement 'shift beats reduce, the lower production index beats the higher, no-action is neutral, accept conflicts are refused'; ItemSet.Action returns ERROR when no item proposes an action, a proposed action otherwise, a shift whenever a shift is proposed, else the reduce with the smallest production index (invariants are stated over the set of proposals of the item prefix, not over the fold order). 'Earliest' is the order of the grammar file: NewSyntaxProd turns the alternatives of a production into productions in the order in which they are written (the concatenation of the productions of different heads, `append(a, b...)` in AddSyntaxProds and augment, is outside the subset and covered by the SYN sweep).",
 }
 
 PROPS["C04"] = {
